@@ -163,7 +163,7 @@ Proof.
   induction l as [|[[[w [[[j11 j12] j21] j22]] [g1 g2]] [h1 h2]] t IH].
   - cbn. unfold Q, Qmat2. mat_cbv. list_eq ltac:(ring).
   - cbn [Kint2 Kint2_moved]. cbv zeta. rewrite IH.
-    rewrite (Ke_block_objective2 a1 a2 b1 b2 r2 C g1 g2 h1 h2 Hr HO HC). fold Q.
+    pose proof (Ke_block_objective2 a1 a2 b1 b2 r2 C g1 g2 h1 h2 Hr HO HC) as EK. cbv zeta in EK. fold Q in EK. fold P in EK. rewrite EK. clear EK.
     assert (Ed : Rabs (det2 (mmul 2 [[j11; j12]; [j21; j22]] (mtrans 2 Q))) = Rabs (det2 [[j11; j12]; [j21; j22]])).
     { replace (det2 (mmul 2 [[j11; j12]; [j21; j22]] (mtrans 2 Q))) with (det2 [[j11; j12]; [j21; j22]] * (a1 * b2 - b1 * a2))
         by (unfold det2, Q, Qmat2; mat_cbv; ring).
